@@ -217,6 +217,78 @@ func busyBody(c busy) func() string {
 	}
 }
 
+// rendezvous scenarios: "nodes finishing in any order" includes orders in which a node of one pipeline
+// finishes only after a node of another pipeline has started (they serve one downstream system, say).
+// Every pipeline's k-th node waits until the k-th node of every other pipeline has been entered; nothing
+// is cancelled. The nodes do return when the pipelines run side by side, so Send must return.
+type rdv struct {
+	Name   string
+	Pipes  int
+	Level  int // which node of each pipeline takes part (0 = root)
+	Cancel bool
+	Bound  int
+}
+
+func rdvScenarios(tier string) []rdv {
+	var out []rdv
+	for _, p := range []int{2, 3} {
+		for lvl := 1; lvl < 3; lvl++ { // (the roots of an event type's pipelines run one after the other on the range goroutine)
+			out = append(out, rdv{Pipes: p, Level: lvl, Bound: 1})
+		}
+	}
+	for i := range out {
+		out[i].Name = fmt.Sprintf("rendezvous: node %d of each of %d pipelines returns only once node %d of every other pipeline has been entered (never cancelled)", out[i].Level, out[i].Pipes, out[i].Level)
+	}
+	return out
+}
+
+func rdvBody(c rdv) func() string {
+	return func() string {
+		log := &hn.Log{}
+		b, _ := el.NewBroker()
+		entered := make([]*vrt.Gate, c.Pipes)
+		for i := range entered {
+			entered[i] = &vrt.Gate{}
+		}
+		for pi := 0; pi < c.Pipes; pi++ {
+			pi := pi
+			var ids []el.NodeID
+			for k := 0; k < 3; k++ {
+				typ := []el.NodeType{el.NodeTypeFilter, el.NodeTypeFormatter, el.NodeTypeSink}[k]
+				scr := hn.Pass
+				if k == 2 {
+					scr = hn.Drop
+				}
+				id := fmt.Sprintf("p%d.n%d", pi, k)
+				n := hn.NewNode(log, id, typ, scr, nil)
+				if k == c.Level {
+					n.OnProcess = func(context.Context, *el.Event) {
+						entered[pi].Open()
+						for j := range entered {
+							if j != pi {
+								entered[j].Wait()
+							}
+						}
+					}
+				}
+				if err := b.RegisterNode(el.NodeID(id), n.AsNode()); err != nil {
+					vrt.Fail("fixture: %v", err)
+				}
+				ids = append(ids, el.NodeID(id))
+			}
+			if err := b.RegisterPipeline(el.Pipeline{PipelineID: el.PipelineID(fmt.Sprintf("p%d", pi)), EventType: "t", NodeIDs: ids}); err != nil {
+				vrt.Fail("fixture: %v", err)
+			}
+		}
+		st, err := b.Send(context.Background(), "t", "x")
+		vrt.Join()
+		if err != nil || len(st.Complete()) != c.Pipes {
+			vrt.Fail("Send: err=%v complete=%v, want %d completed pipelines", err, st.Complete(), c.Pipes)
+		}
+		return "returned"
+	}
+}
+
 func body(sc *hn.Scenario) func() string {
 	return func() string {
 		o := sc.Run()
@@ -240,11 +312,18 @@ func main() {
 			for _, s := range busyScenarios(tier) {
 				n = append(n, s.Name)
 			}
+			for _, s := range rdvScenarios(tier) {
+				n = append(n, s.Name)
+			}
 			return n
 		},
 		SplitScenario: func(tier string, scn int) bool { return true },
 		RunJob: func(tier string, job hk.Job, deadline time.Time) *hk.Result {
-			if all := scenarios(tier); job.Scn >= len(all) {
+			if all, bs := scenarios(tier), busyScenarios(tier); job.Scn >= len(all)+len(bs) {
+				c := rdvScenarios(tier)[job.Scn-len(all)-len(bs)]
+				ex := &vrt.Explorer{Bound: c.Bound, FreeBound: 3, Body: rdvBody(c)}
+				return hk.ExploreJob(prop, job, deadline, ex, c.Name)
+			} else if job.Scn >= len(all) {
 				c := busyScenarios(tier)[job.Scn-len(all)]
 				ex := &vrt.Explorer{Bound: c.Bound, FreeBound: 4, Body: busyBody(c)}
 				return hk.ExploreJob(prop, job, deadline, ex, c.Name)
@@ -256,7 +335,7 @@ func main() {
 			}
 			return hk.ExploreJob(prop, job, deadline, ex, sc.Describe())
 		},
-		Rule: "stateless DFS over all schedules (thread switches at every lock/channel/select/WaitGroup/sync.Map step of the real graph.process/doProcess, select-arm choices, cancel placed at every scheduling point) of each dispatch skeleton, preemption-bounded; an outcome is distinct if (Status, error, ctx state, invoked nodes) differ; every execution is checked for deadlock, panic, primitive misuse, leaked goroutines; plus 'busy broker' scenarios: the Send under test runs while another Send is stuck inside a blocked node and a registry call (threshold setter / getter, RegisterNode, RegisterPipeline, RemovePipeline / RemovePipelineAndNodes of another or of the very pipeline the first Send is stuck in, RemoveNode, Reopen) is in flight - its cancellation must still let it return (bound 1 / 2, at most 4 non-default switches at blocking points)",
+		Rule: "stateless DFS over all schedules (thread switches at every lock/channel/select/WaitGroup/sync.Map step of the real graph.process/doProcess, select-arm choices, cancel placed at every scheduling point) of each dispatch skeleton, preemption-bounded; an outcome is distinct if (Status, error, ctx state, invoked nodes) differ; every execution is checked for deadlock, panic, primitive misuse, leaked goroutines; plus 'busy broker' scenarios: the Send under test runs while another Send is stuck inside a blocked node and a registry call (threshold setter / getter, RegisterNode, RegisterPipeline, RemovePipeline / RemovePipelineAndNodes of another or of the very pipeline the first Send is stuck in, RemoveNode, Reopen) is in flight - its cancellation must still let it return (bound 1 / 2, at most 4 non-default switches at blocking points); plus 'rendezvous' scenarios: the k-th node of each of 2-3 pipelines returns only once the k-th node of every other pipeline has been entered, never cancelled - Send must return with every pipeline complete",
 		Assumptions: []string{
 			"scheduling points at synchronisation operations only (sound for data-race-free code; race freedom is decided by C04/C19)",
 			"promptness is judged in scheduler steps: blocked nodes are released only after Send returned, so a Send that needs node progress after cancellation deadlocks in the model",
